@@ -289,6 +289,7 @@ func RunNative(path string, harnesses map[string]func()) int {
 // ---- parameters and native fixtures ----
 
 type ParamKV struct {
+	Tag string
 	Key string
 	Val interface{}
 }
@@ -298,7 +299,7 @@ var pendingParams []ParamKV
 // Param provides the value of a module parameter. Engine: recorded in the parameter table that
 // the (types.Subspace) accessors are intercepted to read. Native: queued; the package's native
 // environment writes the queue through the real Subspace.Set.
-func Param(key string, val interface{}) { pendingParams = append(pendingParams, ParamKV{key, val}) }
+func Param(key string, val interface{}) { pendingParams = append(pendingParams, ParamKV{Key: key, Val: val}) }
 
 // PendingParams returns and clears the queued parameters (native environments only).
 func PendingParams() []ParamKV {
@@ -315,3 +316,8 @@ func T() interface{}     { return testingT }
 
 // Native reports whether the harness runs natively (false inside the engine).
 func Native() bool { return true }
+
+// ParamFor is Param for one tagged context only (the tag is the context's ChainID).
+func ParamFor(tag, key string, val interface{}) {
+	pendingParams = append(pendingParams, ParamKV{Key: key, Val: val, Tag: tag})
+}
